@@ -9,11 +9,14 @@ CONSTANTS
   RlSizes = {}
   SeekMax = 3
   Ops = FALSE
+  Hints = {}
+  IterSingleLine = TRUE
   Emit = TRUE
   Modes = {"shared", "byname"}
   ClampReadline = TRUE
   PadOdd = TRUE
   SeekFirst = TRUE
+  IterYieldsAll = FALSE
 SPECIFICATION Spec
 INVARIANT TypeOK
 INVARIANT IndexExact
